@@ -804,6 +804,90 @@ func runC13(p *Prog, r *Report) {
 				}
 			}
 		}
+		if !okT {
+			// the trigger may be carried in a variable (`must := firstErr != nil || maxDelay > 0; if must {...}`): read the
+			// routine as a decision table over the two atoms, conditions resolved through phis along each path
+			atomOf := func(cond ssa.Value) (string, bool) {
+				cond = stripConv(cond)
+				if bo, ok := cond.(*ssa.BinOp); ok {
+					if (bo.Op == token.NEQ || bo.Op == token.EQL) && isNilConst(bo.Y) && types.Identical(bo.X.Type(), types.Universe.Lookup("error").Type()) {
+						if bo.Op == token.EQL {
+							return "!err", true
+						}
+						return "err", true
+					}
+					if cmp, ok := CanonCmp(BuildExpr(p, cond, nil)); ok && isTimeType(bo.X.Type(), "Duration") && len(cmp.D.P) == 1 {
+						if c, okc := cmp.D.Q.isConst(); okc && c.Sign() > 0 {
+							switch cmp.Op {
+							case ">":
+								for _, q := range cmp.D.P {
+									if q.Sign() > 0 {
+										return "delay", true
+									}
+								}
+							case ">=":
+								for _, q := range cmp.D.P {
+									if q.Sign() < 0 {
+										return "!delay", true
+									}
+								}
+							}
+						}
+					}
+				}
+				return "", false
+			}
+			outsideLoops := func(path []*ssa.BasicBlock) []*ssa.BasicBlock { return path }
+			_ = outsideLoops
+			type row struct {
+				lits []Lit
+				rb   bool
+			}
+			var rows []row
+			inRB := loopBlocks(rbCall.Block())
+			for _, ret := range Returns(sc) {
+				for _, path := range EnumPaths(sc, ret, 4096) {
+					lits := PathLits(p, path, atomOf)
+					if contradictory(lits) {
+						continue
+					}
+					// only the literals of the trigger test (after the consume loop) matter; per-bucket tests inside the loops use the same shapes
+					var keep []Lit
+					for i := 0; i+1 < len(path); i++ {
+						_ = i
+					}
+					passes := false
+					for _, b := range path {
+						if inRB[b] || b == rbCall.Block() {
+							passes = true
+						}
+					}
+					for _, l := range lits {
+						if l.Atom == "err" || l.Atom == "delay" {
+							keep = append(keep, l)
+						}
+					}
+					rows = append(rows, row{keep, passes})
+				}
+			}
+			okTable := len(rows) > 0
+			for _, asg := range allAssignments([]string{"delay", "err"}) {
+				want := asg["err"] || asg["delay"]
+				for _, rw := range rows {
+					// literals from inside the consume loop (per-bucket err / delay tests) name the same atoms; a row is
+					// only informative when it constrains the atoms consistently with asg
+					if !consistent(rw.lits, asg) || contradictory(rw.lits) {
+						continue
+					}
+					if want != rw.rb {
+						okTable = false
+					}
+				}
+			}
+			if okTable {
+				okT = true
+			}
+		}
 		r.Check(okT, "C13.R2", sn+": all buckets rolled back iff some bucket erred or refused", p.InstrPos(rbCall),
 			"rollback is unreachable once the edges firstErr != nil and maxDelay > 0 are deleted, and reachable from each of them",
 			fmt.Sprintf("the rollback loop is not triggered exactly by `firstErr != nil || maxDelay > 0` (found %d trigger edges): a refused request keeps its debit in the buckets that admitted it, or admitted requests are rolled back", len(trig)))
